@@ -505,6 +505,22 @@ func c04Source(t c04Type) string {
 		w("func e_%s(s []%s) %s { s[0]%s; return s[0] }", d.n, T, T, d.s)
 		w("func m_%s(m map[string]%s) %s { m[\"a\"]%s; return m[\"a\"] }", d.n, T, T, d.s)
 	}
+	// chains of constant operands (an optimizer may fold them only where the arithmetic is associative)
+	w("func kc_add2(a %s) %s { return a + 1 + 1 }", T, T)
+	w("func kc_addsub(a %s) %s { return a + 1 - 1 }", T, T)
+	w("func kc_sub2(a %s) %s { return a - 1 - 1 }", T, T)
+	w("func kc_asg(a %s) %s { a = a + 1 + 2; a = a - 2 - 1; return a + 1 + 1 }", T, T)
+	// variables declared from untyped constants take the default type, whatever an earlier frame left in their slot
+	w("func u_int() any { n := 7; return n / 2 }")
+	w("func u_wrap() any { i := 250; i += 10; return i }")
+	w("func u_float() any { f := 7.0; return f / 2 }")
+	w("func u_rune() any { r := 'a'; return r + 1 }")
+	w("func u_var() any { var n = 9; return n / 2 }")
+	// ... also right after a sibling call whose frame held values of other types in the same cells
+	w("func stale(v %s, f float64) float64 { x := %s(5); y := 2.5; z := v + x; q := \"s\"; _, _ = z, q; return f * y }", T, T)
+	for _, u := range []string{"int", "wrap", "float", "rune", "var"} {
+		w("func sib_%s() any { stale(3, 1.5); a := u_%s(); stale(4, 2.5); b := u_%s(); if a != b { return nil }; return a }", u, u, u)
+	}
 	w("func l_neg(a %s) %s { return -a }", T, T)
 	w("func f_neg(s *S) %s { return -s.A }", T)
 	if !t.float {
@@ -533,6 +549,9 @@ func c04Source(t c04Type) string {
 		w("func d_assign_%d() any { var x %s; x = %s; return x }", ki, T, lit)
 		w("func d_global_%d() any { gk = %s; return gk }", ki, lit)
 		w("func d_multi_%d() any { var x, y %s = %s, %s; return x + y - y }", ki, T, lit, lit)
+		w("func d_resliceset_%d() any { s := make([]%s, 3); v := s[1:3]; v[0] = %s; return v[0] }", ki, T, lit)
+		w("func d_resliceapp_%d() any { s := make([]%s, 3); v := s[:0]; v = append(v, %s); return v[0] }", ki, T, lit)
+		w("func d_reslice2_%d() any { s := []%s{1, 1, 1, 1}; v := s[1:][:2]; v[1] = %s; return s[2] }", ki, T, lit)
 		w("func d_variadic_%d() any { return va(%s) }", ki, lit)
 		w("func d_variadic2_%d() any { return va2(1, 1, %s, 1) }", ki, lit)
 		w("func d_mparam_%d() any { s := &S{}; return s.Put(%s) }", ki, lit)
@@ -733,6 +752,21 @@ func (w *c04Worker) unaryAll(a float64) {
 		w.call("e_"+d.n, t, want, ex, goatlang.NewSlice(t.tag, []goatlang.Value{va}))
 		w.call("m_"+d.n, t, want, ex, goatlang.NewMap(goatlang.TypeString, t.tag, []goatlang.Value{goatlang.String("a"), va}))
 	}
+	{
+		step := func(op string, x c04Want, k float64) c04Want {
+			if x.fail {
+				return x
+			}
+			return c04Bin(t, op, x.num, k)
+		}
+		st := c04Want{num: a}
+		w.call("kc_add2", t, step("add", step("add", st, 1), 1), ex, va)
+		w.call("kc_addsub", t, step("sub", step("add", st, 1), 1), ex, va)
+		w.call("kc_sub2", t, step("sub", step("sub", st, 1), 1), ex, va)
+		x := step("add", step("add", st, 1), 2)
+		x = step("sub", step("sub", x, 2), 1)
+		w.call("kc_asg", t, step("add", step("add", x, 1), 1), ex, va)
+	}
 	w.call("l_neg", t, c04Unary(t, "neg", a), ex, va)
 	w.s.SetAttr("A", va)
 	w.call("f_neg", t, c04Unary(t, "neg", a), ex, w.s)
@@ -809,9 +843,21 @@ func (w *c04Worker) decls() {
 	t := w.t
 	for ki, k := range c04Consts(t) {
 		for _, n := range []string{"var", "conv", "param", "ret", "field", "fieldset", "elem", "elemset", "map", "mapset", "append", "assign", "global", "multi",
-			"variadic", "variadic2", "mparam", "mvariadic", "ret2", "ret2b", "two", "funclit", "nested", "mapslice", "fieldslice", "fieldmap", "appendmany", "swap", "ifinit", "switch", "range"} {
+			"resliceset", "resliceapp", "reslice2", "variadic", "variadic2", "mparam", "mvariadic", "ret2", "ret2b", "two", "funclit", "nested", "mapslice", "fieldslice", "fieldmap", "appendmany", "swap", "ifinit", "switch", "range"} {
 			w.call(fmt.Sprintf("d_%s_%d", n, ki), t, c04Want{num: k}, []float64{k})
 		}
+		// (after calls that left values of type T in the frame's slots)
+		i32, f64 := c04TypeByName("int32"), c04TypeByName("float64")
+		w.call("u_int", i32, c04Want{num: 3}, nil)
+		w.call("u_wrap", i32, c04Want{num: 260}, nil)
+		w.call("u_float", f64, c04Want{num: 3.5}, nil)
+		w.call("u_rune", i32, c04Want{num: 98}, nil)
+		w.call("u_var", i32, c04Want{num: 4}, nil)
+		w.call("sib_int", i32, c04Want{num: 3}, nil)
+		w.call("sib_wrap", i32, c04Want{num: 260}, nil)
+		w.call("sib_float", f64, c04Want{num: 3.5}, nil)
+		w.call("sib_rune", i32, c04Want{num: 98}, nil)
+		w.call("sib_var", i32, c04Want{num: 4}, nil)
 		w.call(fmt.Sprintf("nk_decl_%d", ki), t, c04Want{num: k}, []float64{k})
 		w.call(fmt.Sprintf("nk_typed_%d", ki), t, c04Want{num: k}, []float64{k})
 	}
